@@ -41,7 +41,8 @@ claim("C01",
       "(canonical form, idempotence, popcount definition of triviality, clade/four-way compatibility, nesting) are discharged as unsat for "
       "EVERY mask of the stated width (16 bits quick, 64 thorough; cvc5 cross-check in thorough); the translator is validated against the real "
       "functions on 10 000 concrete evaluations. (A) Bounded symbolic execution of encode_bipartitions / from_split_bitmasks / the predicates "
-      "on real trees: every shape in the bound, symbolic taxon->bit assignment (namespaces with removed/sorted/extra taxa), rooting and flags; "
+      "on real trees: every shape in the bound, symbolic taxon->bit assignment (namespaces with removed/sorted/extra taxa), rooting and every "
+      "encode_bipartitions option (suppress_unifurcations, collapse_unrooted_basal_bifurcation, suppress_storage, is_bipartitions_mutable) symbolic; "
       "oracle = OR of taxon bits below each edge computed from raw links, label-set clades/splits for iff and reconstruction.",
       TB, "AST->SMT translation of the bit kernels decided by z3 over all masks (Engine B) + symbolic execution (CrossHair+z3) of encoding/reconstruction on real trees (Engine A)",
       "DESIGN.md 3/C01")
@@ -135,7 +136,9 @@ claim("C13",
       "metadata comments, distribution over blocks, reader options, fresh or pre-populated namespace, namespace shared with the reference read "
       "or owned by the route). Every route - Tree.get by offsets, TreeList.read, Tree.yield_from_files, DataSet.get, TreeArray.read, "
       "data=/file=/path= - is compared with TreeList.get: structure, labels, lengths, rooting, weight, tree label, comments, annotations, taxon "
-      "identity or namespace label order. The text is concrete per path; the solver's part is the exhaustive, non-redundant walk of the grammar.",
+      "identity or namespace label order. A second grammar (c13_mixed) puts CHARACTERS and SETS blocks (charset forms ALL, ranges, '.', stride) around "
+      "TREES blocks with exponent/negative lengths and hyphenated names, in three block orders, and compares the tree routes and the matrix routes "
+      "with the data-set route. The text is concrete per path; the solver's part is the exhaustive, non-redundant walk of the grammar.",
       TB, "symbolic-choice driven (CrossHair+z3) exhaustive walk of a document grammar through every reading route, compared pairwise",
       "DESIGN.md 3/C13")
 
@@ -180,7 +183,8 @@ claim("C05",
       "groupings reaching the threshold, below = pairwise compatible, none under the threshold, maximal in frequency order, spanning every "
       "taxon once with the inputs' rooting; collapsing removes exactly the weak internal edges and keeps every root-to-tip distance for all "
       "symbolic lengths; node support / label / percentages and edge-length mean, median, range, sd on summarised trees, also after the "
-      "collection has grown; maximum-credibility trees attain the maximum of the reported scores.",
+      "collection has grown; node-age mean, median, range, sd (and mean-age / median-age edge lengths) for rooted ultrametric inputs; trees with and "
+      "without an explicit weight mixed; maximum-credibility trees attain the maximum of the reported scores.",
       TB + " Summaries that call sqrt/log run on concrete values per path.", "symbolic execution (CrossHair+z3) of split counting, consensus, collapsing and summarising with symbolic tree choices and symbolic integer weights",
       "DESIGN.md 3/C05")
 
